@@ -37,6 +37,9 @@ def canonical(rnd, sign, cal=True, time=True):
 
 
 def drive(ctx):
+    from .. import suite
+
+    suite.trace_suite(ctx)      # the repository's own tests, recorded by the external tracer
     from .. import gr
 
     gr.replay(ctx)          # behaviours of the Session state machine, real objects threaded
